@@ -9,14 +9,14 @@ sys.path.insert(0, HERE)
 
 META = {
     "C01": ("crash", "commit-snapshot crash enumeration + recovery resume; reference-run equality oracle over audit log and execution ledger", "3/C01"),
-    "C02": ("delivery", "controlled delivery schedules (reorder / withheld ack / hold-back) vs FIFO reference; audit-trigger and ledger monitors", "3/C02"),
+    "C02": ("delivery", "controlled delivery schedules (reorder / withheld ack / hold-back, exhaustive depth-bounded branching) vs FIFO reference; every message handed to a second worker during its first handling; audit-trigger and ledger monitors", "3/C02"),
     "C03": ("delivery", "join-predicate monitor evaluated on the trigger audit timeline at every durable stage start under hostile StartStage injection", "3/C03"),
     "C04": ("interleaving", "cooperative statement-level scheduler (preemption-bounded exhaustive + random) with exactly-once monitors on audit log and ledger", "3/C04"),
-    "C05": ("delivery", "quiescence predicates on store.retrieve() after draining hostile delivery schedules over the full workflow family", "3/C05"),
+    "C05": ("delivery", "quiescence predicates on store.retrieve() after draining hostile delivery schedules over the full workflow family, 3-worker interleavings, and a lock error at every handler COMMIT / first write in turn", "3/C05"),
     "C06": ("all", "transition-table monitor over every durable status row (SQL triggers) of delivery, crash and interleaving workloads", "3/C06"),
-    "C07": ("interleaving", "statement-level interleaving of read-modify-write operations; lost-update / version monitors on recorded histories", "3/C07"),
+    "C07": ("interleaving", "statement-level interleaving of read-modify-write operations; lost-update / version monitors on recorded histories; serializability of every pair of co-enabled messages against the two sequential orders", "3/C07"),
     "C08": ("inputs", "reference queue model stepped beside random operation sequences; conservation ledger from triggers; interleaved pollers; commit snapshots", "3/C08"),
-    "C09": ("delivery", "handler-invocation monitor joined with durable processed marks under redelivery after restart / rotation; bloom shadow-set contract", "3/C09"),
+    "C09": ("delivery", "handler-invocation monitor joined with durable processed marks under redelivery after restart / rotation / stalled workers / failing lookups, worker threads sharing the filter; bloom shadow-set contract", "3/C09"),
     "C10": ("delivery", "recovery sweeps injected at every step (and at crash snapshots twice) compared with sweep-free runs", "3/C10"),
     "C11": ("interleaving", "mutex / deferred-choice monitors per commit group under statement-level interleaving and retention sweeps", "3/C11"),
     "C12": ("delivery", "replay-vs-store comparison, metamorphic prefix and snapshot oracles over every event-log cut", "3/C12"),
@@ -24,8 +24,8 @@ META = {
     "C14": ("delivery", "execution ledger counts and per-attempt context monitor for transient-retry and polling tasks", "3/C14"),
     "C15": ("delivery", "independent re-arm / skip set reference vs per-iteration ledger counts; jump budget monitor", "3/C15"),
     "C16": ("delivery", "reference visibility model over uniquely tagged outputs vs contexts recorded at Task.execute", "3/C16"),
-    "C17": ("delivery", "cancel injected at every step; ledger entries vs the commit that set is_canceled; final-state monitor", "3/C17"),
-    "C18": ("delivery", "signal injected at every step / interleaved with the suspending task; exactly-once payload monitor", "3/C18"),
+    "C17": ("delivery", "cancel injected at every step and from a racing thread; ledger entries vs the commit that set is_canceled; sticky-flag and final-state monitors; CancelWorkflow x next-handler pairs", "3/C17"),
+    "C18": ("delivery", "signal injected at every step / interleaved with the suspending task, the planning StartStage, a jump, or a second handler of the same message; exactly-once payload monitor", "3/C18"),
     "C19": ("inputs", "hypothesis-generated workflows and messages round-tripped through the real store / queue; field-by-field comparison", "3/C19"),
     "C20": ("inputs", "reference validator + audit-hook sandbox monitor + exception-type monitor over generated graphs and expressions", "3/C20"),
 }
